@@ -62,3 +62,16 @@ Fixpoint fold_m {S X} (f : S -> X -> outcome S) (l : list X) (s : S) : outcome S
 (** [Option::unwrap] / [expect] *)
 Definition unwrap_or_panic {A} (o : option A) : outcome A :=
   match o with Some a => Ok a | None => Panic end.
+
+(** [u8] bit operations: [!b], [b << k] for [k < 8] (rs2v only translates shifts whose amount is
+    visibly [_ % 8]), and [b.overflowing_shr(s).0] (the shift amount is taken modulo 8) *)
+Definition not8 (b : N) : N := N.lxor 255 b.
+Definition shl8 (b k : N) : N := (N.shiftl b k) mod 256.
+Definition overflowing_shr8 (b s : N) : N := N.shiftr b (s mod 8).
+
+(** [*x = v] where [x] was obtained from [l.get_mut(i)] (so [i] is in range) *)
+Fixpoint upd_at (l : list N) (i : N) (x : N) : list N :=
+  match l with
+  | [] => []
+  | y :: r => if i =? 0 then x :: r else y :: upd_at r (i - 1) x
+  end.
